@@ -72,3 +72,11 @@ func genContainerStream(r *Rng, pkg, tier string) (stream, out []byte, how strin
 }
 
 var _ = io.EOF
+
+func stdDeflate(d []byte, lvl int) []byte {
+	var b bytes.Buffer
+	w, _ := sflate.NewWriter(&b, lvl)
+	w.Write(d)
+	w.Close()
+	return b.Bytes()
+}
